@@ -34,6 +34,8 @@ PROPS = {
             "C08_ir_stream_is_tree": [],
             "C08_entry_is_position": [],
             "C08_call_resolves": [],
+            "C08_every_call_resolves": [],
+            "C08_resolve_error_is_unresolved_call": [],
             "C08_label_points_to_body": [],
             "C08_label_of_position": [],
             "C08_example_super_spec": [],
